@@ -230,7 +230,7 @@ func genLongStringDoc(r *Rand) Doc {
 // genManySmallArraysDoc: hundreds to thousands of arrays of 1-16 elements: the workload of anything
 // that carves small results out of a shared block.
 func genManySmallArraysDoc(r *Rand) Doc {
-	n := []int{150, 700, 3000}[r.Intn(3)]
+	n := []int{150, 400, 1100}[r.Intn(3)]
 	var b bytes.Buffer
 	b.WriteByte('[')
 	for i := 0; i < n; i++ {
@@ -251,7 +251,7 @@ func genManySmallArraysDoc(r *Rand) Doc {
 }
 
 func genC18Doc(r *Rand) Doc {
-	if r.Chance(1, 25) {
+	if r.Chance(1, 40) {
 		return genManySmallArraysDoc(r)
 	}
 	switch r.Pick(3, 4, 2, 3, 2, 1, 2, 1) {
